@@ -1175,15 +1175,25 @@ void NifFile::TrimTexturePaths() {
 		// Replace multiple slashes or forward slashes with one backslash
 		tex = std::regex_replace(tex, std::regex("[/\\\\]+"), "\\");
 
-		// Search for the first occurrence of "\textures\" (only if "textures\" isn't at the start)
-		std::smatch match;
-		std::regex pattern(R"(^(?!textures\\)[\s\S]*?\\textures\\)", std::regex_constants::icase);
-	
-		if (std::regex_search(tex, match, pattern))
-			tex = tex.substr(match[0].length()); // Remove matched string
+		// Repeat the removal steps until nothing changes, so that cleaning a cleaned path is a no-op
+		std::string previous;
+		do {
+			previous = tex;
 
-		// Remove all backslashes (and whitespace they were hiding) from the front
-		tex = std::regex_replace(tex, std::regex("^[\\\\\\s]+"), "");
+			// A "Data\" prefix of a terrain path is added back below
+			if (isTerrain)
+				tex = std::regex_replace(tex, std::regex("^Data\\\\", std::regex_constants::icase), "");
+
+			// Search for the first occurrence of "\textures\" (only if "textures\" isn't at the start)
+			std::smatch match;
+			std::regex pattern(R"(^(?!textures\\)[\s\S]*?\\textures\\)", std::regex_constants::icase);
+
+			if (std::regex_search(tex, match, pattern))
+				tex = tex.substr(match[0].length()); // Remove matched string
+
+			// Remove all backslashes (and whitespace they were hiding) from the front
+			tex = std::regex_replace(tex, std::regex("^[\\\\\\s]+"), "");
+		} while (tex != previous);
 
 		if (!hdr.GetVersion().IsOB() && !hdr.GetVersion().IsSpecial() && is_relative_path(tex)) {
 			// If the path doesn't start with "textures\", add it to the front
